@@ -140,7 +140,7 @@ fn main() {
     }
 
     let ctx = Ctx::from_env("C10");
-    ctx.rule("case = grammar map (dense universe: N<=2/3 objects, gaps {0,150,1000}; long-gap universe: N<=3/4 objects, gaps {150, 7 s, 700 s} so that strains decay through the subnormal range to exact zero, first object before time zero); per case the whole battery (difficulty, full strain vectors, gradual walks, performance, conversions to every reachable mode, 3 settings + key mods) is digested by four builds of this checker that differ only in rosu-pp's cargo features; oracle = the four digests are equal for every case; non-trivial = every case (each compares four independent executions)");
+    ctx.rule("case = grammar map (dense universe: N<=2/3 objects, gaps {0,150,1000}; long-gap universe: N<=3/4 objects, gaps {150, 7 s, 700 s} so that strains decay through the subnormal range to exact zero, first object before time zero; extra cases: the fixtures and windows of them, rhythm and 3-object motif universes, two bursts separated by a silence of 7*10^6 / 1.4*10^7 ms = more than 2^14 / 2^15 strain sections); per case the whole battery (difficulty, full strain vectors, gradual walks, performance, conversions to every reachable mode, 3 settings + key mods) is digested by four builds of this checker that differ only in rosu-pp's cargo features; oracle = the four digests are equal for every case; non-trivial = every case (each compares four independent executions)");
     ctx.assume("the four binaries are built from the same working tree by bin/pre_c10 (target/feat-*/release/c10)");
 
     let root = PathBuf::from(std::env::var("VERIF_ROOT").unwrap_or_else(|_| "/verif".into()));
